@@ -65,7 +65,8 @@ func TdxPolicy(ctx context.Context, endorsement *epb.VMLaunchEndorsement, opts *
 	for _, m := range golden.Tdx.Measurements {
 		// If RAMGiB is 0, we try all measurements.
 		// If nonzero, skip sizes that don't match.
-		if opts.RAMGiB != 0 && m.GetRamGib() != uint32(opts.RAMGiB) {
+		// (Compared as 64-bit values: a named size that does not fit the 32-bit field matches no entry.)
+		if opts.RAMGiB != 0 && int64(m.GetRamGib()) != int64(opts.RAMGiB) {
 			continue
 		}
 		// An empty allow-list, or a zero-length entry in it, leaves the MRTD unchecked downstream.
